@@ -107,7 +107,7 @@ func RunWorker(p *Prop, tier string, k, n int, trace bool, deadline time.Time) {
 				}
 				curCase.Store(f.Name + " " + strconv.FormatInt(i, 10))
 				curStart.Store(time.Now().UnixNano())
-				f.Run(i, r)
+				runCase(f, i, r)
 				curStart.Store(0)
 			}
 			if cut {
@@ -133,6 +133,20 @@ func RunWorker(p *Prop, tier string, k, n int, trace bool, deadline time.Time) {
 	out.Flush()
 }
 
+// runCase runs one case; a BaselineFailure becomes a violation, any other panic stays a harness crash.
+func runCase(f Family, i int64, r *Rec) {
+	defer func() {
+		if p := recover(); p != nil {
+			if b, ok := p.(BaselineFailure); ok {
+				r.Violation("baseline-fails:"+f.Name, map[string]any{"family": f.Name, "index": i}, "the harness's own valid template parses and renders", b.Msg)
+				return
+			}
+			panic(p)
+		}
+	}()
+	f.Run(i, r)
+}
+
 // RunOne runs a single case (replay) in-process and returns its record.
 func RunOne(p *Prop, tier, family string, index int64) *Rec {
 	r := NewRec()
@@ -147,7 +161,7 @@ func RunOne(p *Prop, tier, family string, index int64) *Rec {
 				fmt.Fprintf(os.Stderr, "index %d out of range for family %s (count %d)\n", index, family, f.Count)
 				os.Exit(2)
 			}
-			f.Run(index, r)
+			runCase(f, index, r)
 			return r
 		}
 	}
